@@ -838,9 +838,92 @@ func (w *walker) node(n ast.Node, stack []ast.Node) {
 	})
 }
 
+// unlockerRegistry: unexported methods that release a mutex of their receiver which they did not
+// acquire themselves (`func (s *T) unlockAndPublish() { ...; s.mutex.Unlock(); ... }`): on every path
+// from entry to exit they unlock <recv>.<chain> and never lock it. A call of such a method is an
+// Unlock of that mutex of the object it is called on - `defer s.unlockAndPublish()` is a deferred
+// unlock. Filled once per loaded program (registerUnlockers).
+var unlockerRegistry = map[*types.Func]string{}
+
+func registerUnlockers(p *Prog) {
+	for _, pk := range p.Pkgs {
+		if pk.TypesInfo == nil || !strings.HasPrefix(pk.PkgPath, "github.com/iotaledger/hive.go") {
+			continue
+		}
+		info := pk.TypesInfo
+		for _, file := range pk.Syntax {
+			for _, d := range file.Decls {
+				fd, ok := d.(*ast.FuncDecl)
+				if !ok || fd.Body == nil || fd.Recv == nil || fd.Name.IsExported() {
+					continue
+				}
+				ro := recvObj(info, fd)
+				fn, _ := info.Defs[fd.Name].(*types.Func)
+				if ro == nil || fn == nil {
+					continue
+				}
+				rp := fmt.Sprintf("%s@%d", ro.Name(), ro.Pos())
+				// candidate mutexes: unlocked somewhere in the body, never locked in it
+				unl, lck := map[string]bool{}, map[string]bool{}
+				ast.Inspect(fd.Body, func(n ast.Node) bool {
+					if c, isCall := n.(*ast.CallExpr); isCall {
+						if op, path := lockOp(info, c); strings.HasPrefix(path, rp+".") {
+							switch op {
+							case "Unlock", "RUnlock":
+								unl[path] = true
+							case "Lock", "RLock", "TryLock":
+								lck[path] = true
+							}
+						}
+					}
+					return true
+				})
+				for path := range unl {
+					if lck[path] || len(unl) != 1 {
+						continue
+					}
+					isUnlock := func(n ast.Node) bool {
+						c, isCall := n.(*ast.CallExpr)
+						if !isCall {
+							return false
+						}
+						op, q := lockOp(info, c)
+						return (op == "Unlock" || op == "RUnlock") && q == path
+					}
+					// a deferred unlock at the top level, or no way through the body around the unlock
+					always := false
+					for _, st := range fd.Body.List {
+						if ds, isDefer := st.(*ast.DeferStmt); isDefer && isUnlock(ds.Call) {
+							always = true
+						}
+					}
+					if !always {
+						f := newFuncCFGPlain(p, info, fd.Body, "")
+						if _, found := f.reach(f.entry(), &searchOpts{AvoidNode: isUnlock}, func(pt Point, atExit bool) bool { return atExit }); !found {
+							always = true
+						}
+					}
+					if always {
+						unlockerRegistry[fn.Origin()] = strings.TrimPrefix(path, rp)
+					}
+				}
+			}
+		}
+	}
+}
+
 func (w *walker) lockOpOf(call *ast.CallExpr) (string, string) {
 	if op, p := lockOp(w.opts.Info, call); op != "" {
 		return op, p
+	}
+	if se, ok := ast.Unparen(call.Fun).(*ast.SelectorExpr); ok && len(unlockerRegistry) > 0 {
+		if fn, _ := w.opts.Info.Uses[se.Sel].(*types.Func); fn != nil {
+			if chain, has := unlockerRegistry[fn.Origin()]; has {
+				if base, okp := pathOf(w.opts.Info, se.X); okp {
+					return "Unlock", base + chain
+				}
+			}
+		}
 	}
 	if w.opts.ExtraLockOp != nil {
 		return w.opts.ExtraLockOp(call)
